@@ -41,7 +41,7 @@ CATALOGUES = {
         "G|g1|a+|b-|10|*", "G|g2|b+|c+|5|2",
         "F|a|x+|0|2|0|2|*", "F|a|x-|1|3|0|2|*",
         "O|o1|a+ b+", "O|o2|a+ e1+ b+", "O|o3|o2- c+", "O|o1|c+|xx:i:1", "O|o6|e1- a-", "O|o7|e5- b-",
-        "U|u1|a e1 g1", "U|u2|u1 o1", "U|u1|c|yy:i:2", "U|u1|b|yy:i:3",
+        "U|u1|a e1 g1", "U|u2|u1 o1", "U|u1|c|yy:i:2", "U|u1|b|yy:i:3", "U|u1|b|yy:Z:2",
         "U|u3|u4", "U|u4|u3",
         "X|custom|1", "S|o1|3|*", "S|2|3|*", "E|7|a+|2+|0|1|2|3$|*",
         "# gfa2 comment", "H|TS:i:10",
@@ -53,7 +53,7 @@ CATALOGUES = {
         "S|a|4|*", "S|b|6|*",
         "E|e1|a+|b+|2|4$|0|2|*", "E|*|a+|b+|2|4$|0|2|*", "E|e2|a+|b-|0|4$|1|5|*",
         "G|g1|a+|b-|10|*",
-        "O|o1|a+ e1+ b+", "U|u1|a e1 g1", "U|u2|u1 o1", "O|o6|e1- a-",
+        "O|o1|a+ e1+ b+", "U|u1|a e1 g1", "U|u2|u1 o1", "O|o6|e1- a-", "U|u1|b|xx:i:1", "U|u1|a|xx:Z:1",
     ], ids=["a", "b", "e1", "g1", "o1", "u1", "zz"], renames=[("a", "d"), ("e1", "u1")],
         tagedits=[("a", "xx:i:5"), ("u1", "yy:i:9")], validate=True),
 }
@@ -76,6 +76,15 @@ CATALOGUES["perm2"] = dict(version="gfa2", lines=[
 ], ids=["a", "b", "c", "e1", "g1", "o1", "o2", "u1"], renames=[])
 
 
+# small catalogues for arrival orders: multi-line groups nested in groups; self-loops given in
+# complement form under paths
+CATALOGUES["permg"] = dict(version="gfa2", lines=[
+    "S|a|4|*", "S|b|6|*", "U|u6|a", "U|u6|b", "U|u7|u6", "U|u8|u6 b", "O|o8|a+", "O|o8|b-", "O|o9|o8+", "U|u9|o8 u6",
+], ids=["a", "b", "u6", "u7", "o8"], renames=[])
+CATALOGUES["perml"] = dict(version="gfa1", lines=[
+    "S|A|*", "S|B|*", "L|A|-|A|-|1M", "L|A|+|B|+|*", "L|B|+|B|+|2M1D1M", "P|p|A+,A+,B+|*",
+    "P|q|B-,A-,A-|*", "P|r|B+,B+|2M1D1M", "P|s|B-,B-,A-|1M1I2M,*",
+], ids=["A", "B", "p", "q"], renames=[])
 CATALOGUES["ver"] = dict(version="none", lines=[
     "H|xx:i:1", "H|VN:Z:1.0", "H|VN:Z:2.0", "H|VN:Z:3.0",
     "S|A|*", "S|a|3|*",
@@ -231,6 +240,8 @@ def apply_op(gfapy, gfa, op, version):
         if k == "deltag":
             o.delete(n)
         else:
+            if n in o.tagnames and o.get_datatype(n) != t:
+                o.set_datatype(n, t)       # the operation sets the tag as written: datatype and value
             o.set(n, int(v) if t == "i" else v)
     elif k == "ren":
         o = find_named(gfa, op["id"])
@@ -580,12 +591,22 @@ CLAUSE_PROP = {
 }
 
 
+# C03 is about everything that must not depend on the arrival order: version, written records,
+# identifiers, reference targets, back-reference sets, placeholders
+ORDER_CLAUSES = {"lines", "hdr", "version", "virtual", "shadow", "keys", "nbrs", "etype", "flags", "names", "lookup",
+                 "externals", "C02.closed", "C02.sym", "C02.owner", "C02.lookup-unlisted", "res.refused",
+                 "res.notunique", "res.version", "components", "counts"}
+
+
 def attribute(clauses, kind):
     props = set()
     for c in clauses:
         p = CLAUSE_PROP.get(c, "C05")
-        if kind == "perm" and p == "C05":
-            p = "C03"
+        if kind == "perm":
+            if p == "C05":
+                p = "C03"
+            if c in ORDER_CLAUSES:
+                props.add("C03")
         props.add(p)
     return props
 
